@@ -287,6 +287,20 @@ let () =
         let t = if which = "spec" then spec_rej_tokens fuel prog (n_of_int (ai sc)) pol (ab bol) w
           else view_rej_tokens fuel (List.assoc which rtabs) (adj_of adj) (n_of_int (ai sc)) pol (ab bol) w in
         Printf.printf "rejtokens %s %s\n" which (toks_str t)
+      | L [A "rejtokens_tc"; A which; sc; bol; inp; L pols; L adj] ->
+        let w = bytes_of inp in
+        let pols = List.map policy_of pols in
+        let pol r = match List.assoc_opt (int_of_n r) pols with Some p -> p | None -> RejNever in
+        let fuel = nat_of_int (List.length w + 1) in
+        let t = view_rej_tokens_tc fuel (List.assoc which rtabs) (adj_of adj) (n_of_int (ai sc)) pol (ab bol) w in
+        Printf.printf "rejtokens %s %s\n" which (toks_str t)
+      | L [A "rejvalidate"; sc; bol; inp; L pols; L evs] ->
+        let w = bytes_of inp in
+        let pols = List.map policy_of pols in
+        let pol r = match List.assoc_opt (int_of_n r) pols with Some p -> p | None -> RejNever in
+        let evs = List.map (function L [r; k] -> (n_of_int (ai r), nat_of_int (ai k)) | _ -> failwith "ev") evs in
+        let fuel = nat_of_int (List.length evs + List.length w + 2) in
+        Printf.printf "rejvalidate x %s\n" (if rej_validate fuel prog (n_of_int (ai sc)) pol [] (ab bol) w evs then "OK" else "FAIL")
       | L [A "rejtokens_old"; A which; sc; bol; inp; L pols] ->
         let w = bytes_of inp in
         let pols = List.map policy_of pols in
